@@ -59,6 +59,8 @@ def ops : OpTable := [
       .arr [.str "ok", .bytes (Spec.ConcatKDF.deriveKey (hashFn o "sha256") (B a 1) (B a 2) (B a 3) (B a 4) (N a 5))]),
   ("c12.ecdhes.unwrap", fun a => (mapPO Wire.bytes (Model.KW.ECDHES.unwrapKey (arg a 0).asStr (N a 1) (arg a 2).asBool (arg a 3).asStr
       (arg a 4).asStr (B a 5) (B a 6) (B a 7) (B a 8) (B a 9))).toOp),
+  ("c12.ecdhes.produce", fun a => (mapPO pairW (Model.KW.ECDHES.produceKey (arg a 0).asStr (N a 1) (arg a 2).asBool (arg a 3).asStr
+      (arg a 4).asStr (B a 5) (B a 6) (B a 7) (B a 8) (B a 9))).toOp),
   -- PBES2
   ("c12.pbes2.wrap", fun a => (mapPO Wire.bytes (Model.KW.PBES2.wrapKey (pbes2Params (N a 0)) (arg a 1).asBool (B a 2) (B a 3) (arg a 4).asInt (B a 5))).toOp),
   ("c12.pbes2.unwrap", fun a => (mapPO Wire.bytes (Model.KW.PBES2.unwrapKey (pbes2Params (N a 0)) (arg a 1).asBool (B a 2) (B a 3) (arg a 4).asInt (B a 5))).toOp),
